@@ -151,6 +151,51 @@ func genReload() {
 	m.strs("beforeSwitch", c12Stmts(h, heb.Body.List[:swIdx]), "HandleEventBatch before the switch")
 	m.strs("afterSwitch", c12Stmts(h, heb.Body.List[swIdx+1:]), "HandleEventBatch after the switch")
 	m.strs("updateNginxConfBody", c12Stmts(h, h.fn("eventHandlerImpl", "updateNginxConf").Body.List), "updateNginxConf")
+	// error flow of the apply transaction: every `if err := <call>; <cond> { …; return … }` of updateNginxConf
+	// as "<call> | <cond> | <kind of the last statement of the body>"
+	var guards []string
+	for _, st := range h.fn("eventHandlerImpl", "updateNginxConf").Body.List {
+		ifs, ok := st.(*ast.IfStmt)
+		if !ok {
+			continue
+		}
+		call := ""
+		if as, ok := ifs.Init.(*ast.AssignStmt); ok && len(as.Rhs) == 1 {
+			call = h.text(as.Rhs[0])
+		}
+		last := "empty"
+		if n := len(ifs.Body.List); n > 0 {
+			if _, ok := ifs.Body.List[n-1].(*ast.ReturnStmt); ok {
+				last = "return"
+			} else {
+				last = "falls-through"
+			}
+		}
+		if ifs.Else != nil {
+			last += "+else"
+		}
+		guards = append(guards, call+" | "+h.text(ifs.Cond)+" | "+last)
+	}
+	m.strs("updateNginxConfGuards", guards, "updateNginxConf: call | condition | how the error branch ends, per if statement")
+	// who reads h.latestReloadResult: every call in handler.go that takes it as an argument
+	var lrrReads []string
+	for _, d := range h.f.Decls {
+		fd, ok := d.(*ast.FuncDecl)
+		if !ok || fd.Body == nil {
+			continue
+		}
+		walk(fd.Body, func(n ast.Node) bool {
+			if c, ok := n.(*ast.CallExpr); ok {
+				for _, a := range c.Args {
+					if h.text(a) == "h.latestReloadResult" {
+						lrrReads = append(lrrReads, fd.Name.Name+": "+h.text(c.Fun))
+					}
+				}
+			}
+			return true
+		})
+	}
+	m.strs("latestReloadResultReads", lrrReads, "every call in handler.go that is handed h.latestReloadResult")
 	uus := h.fn("eventHandlerImpl", "updateUpstreamServers")
 	m.str("updateUpstreamServersGuard", h.text(uus.Body.List[0]), "first statement of updateUpstreamServers")
 	// every statement in the package file that writes h.version / h.latestReloadResult
